@@ -6,8 +6,10 @@ import (
 	"io"
 	"runtime/debug"
 
+	"github.com/gobwas/httphead"
 	"github.com/gobwas/pool/pbufio"
 	"github.com/gobwas/pool/pbytes"
+	"github.com/gobwas/ws"
 )
 
 func vPrepare() { debug.SetGCPercent(-1) }
@@ -53,3 +55,136 @@ func vPoisonPools() {
 }
 
 func vIn(b, lo, hi byte) bool { return vAnd(b >= lo, b <= hi) }
+
+func vHdr() ws.Header {
+	var h ws.Header
+	h.Fin = vBool("fin")
+	h.Rsv = vU8("rsv")
+	h.OpCode = ws.OpCode(vU8("op"))
+	h.Masked = vBool("masked")
+	h.Mask = [4]byte{vU8("m0"), vU8("m1"), vU8("m2"), vU8("m3")}
+	h.Length = int64(vU64("len"))
+	vAssume(h.Rsv <= 7)
+	vAssume(h.OpCode <= 15)
+	vAssume(h.Length >= 0)
+	return h
+}
+
+func vSameExceptRsv(a, b ws.Header) bool {
+	return vAnd(a.Fin == b.Fin, vAnd(a.OpCode == b.OpCode, vAnd(a.Masked == b.Masked, vAnd(a.Mask == b.Mask, a.Length == b.Length))))
+}
+
+type vRecW struct {
+	all []byte
+}
+
+func (r *vRecW) Write(p []byte) (int, error) { r.all = append(r.all, p...); return len(p), nil }
+
+type vBytesSrc struct {
+	data    []byte
+	pos     int
+	one     bool
+	eofWith bool // deliver the last chunk together with io.EOF (allowed by io.Reader)
+}
+
+func (s *vBytesSrc) Read(p []byte) (int, error) {
+	if s.pos >= len(s.data) {
+		return 0, io.EOF
+	}
+	if len(p) == 0 {
+		return 0, nil
+	}
+	n := len(s.data) - s.pos
+	if n > len(p) {
+		n = len(p)
+	}
+	if s.one {
+		n = 1
+	}
+	copy(p, s.data[s.pos:s.pos+n])
+	s.pos += n
+	if s.eofWith && s.pos >= len(s.data) {
+		return n, io.EOF
+	}
+	return n, nil
+}
+
+// vFrames parses concrete-length frames (harness-side RFC 6455 decoder).
+type vFr struct {
+	fin     bool
+	rsv, op byte
+	masked  bool
+	payload []byte
+}
+
+func vParse(b []byte) (fs []vFr, ok bool) {
+	for len(b) > 0 {
+		if len(b) < 2 {
+			return fs, false
+		}
+		f := vFr{fin: b[0]&0x80 != 0, rsv: (b[0] >> 4) & 7, op: b[0] & 15, masked: b[1]&0x80 != 0}
+		n := int(vConcrete(uint64(b[1] & 0x7f)))
+		off := 2
+		if n > 125 {
+			return fs, false
+		}
+		var key [4]byte
+		if f.masked {
+			if len(b) < 6 {
+				return fs, false
+			}
+			copy(key[:], b[2:6])
+			off = 6
+		}
+		if len(b) < off+n {
+			return fs, false
+		}
+		f.payload = make([]byte, n)
+		for i := range f.payload {
+			f.payload[i] = b[off+i]
+			if f.masked {
+				f.payload[i] ^= key[i%4]
+			}
+		}
+		fs = append(fs, f)
+		b = b[off+n:]
+	}
+	return fs, true
+}
+
+type vHalf struct {
+	in    []byte
+	pos   int
+	out   []byte
+	chunk int
+}
+
+func (h *vHalf) Read(p []byte) (int, error) {
+	if h.pos >= len(h.in) {
+		return 0, io.EOF
+	}
+	n := len(h.in) - h.pos
+	if n > len(p) {
+		n = len(p)
+	}
+	if h.chunk > 0 && n > h.chunk {
+		n = h.chunk
+	}
+	copy(p, h.in[h.pos:h.pos+n])
+	h.pos += n
+	return n, nil
+}
+
+func (h *vHalf) Write(p []byte) (int, error) { h.out = append(h.out, p...); return len(p), nil }
+
+func vOptsEqual(a, b []httphead.Option) bool {
+	if len(a) != len(b) {
+		return false
+	}
+	for i := range a {
+		if !a[i].Equal(b[i]) {
+			return false
+		}
+	}
+	return true
+}
